@@ -32,15 +32,17 @@ Print Assumptions C05_locals_do_not_leak.
 
 (** C05_out_of_scope (partial: the full statement also covers uses after a record body ended through a field
     access, which needs the typed resolver of ScopeSpec): a name that did not resolve before a construct and
-    that the construct did not define as a global def does not resolve after it ... *)
+    that the construct did not define as a global def or defset does not resolve after it ... *)
 Theorem C05_out_of_scope_partial : forall files n x s nm,
     block_like x = true -> current_record_id s = None -> mc_scopes_valid s ->
-    resolve_id s nm = None -> find_def (snd (index_stmt files n x s)) nm = None ->
+    resolve_id s nm = None ->
+    find_def (snd (index_stmt files n x s)) nm = None -> find_defset (snd (index_stmt files n x s)) nm = None ->
     resolve_id (snd (index_stmt files n x s)) nm = None.
 Proof. exact out_of_scope_unresolved. Qed.
 Check C05_out_of_scope_partial : forall files n x s nm,
     block_like x = true -> current_record_id s = None -> mc_scopes_valid s ->
-    resolve_id s nm = None -> find_def (snd (index_stmt files n x s)) nm = None ->
+    resolve_id s nm = None ->
+    find_def (snd (index_stmt files n x s)) nm = None -> find_defset (snd (index_stmt files n x s)) nm = None ->
     resolve_id (snd (index_stmt files n x s)) nm = None.
 Print Assumptions C05_out_of_scope_partial.
 
@@ -72,6 +74,7 @@ Example C05_out_of_scope_nonvacuous :
   block_like ex_foreach = true /\ current_record_id ex_pre = None /\ mc_scopes_valid ex_pre /\
   resolve_id ex_pre [105] = None /\ resolve_id ex_pre [120] = None /\ resolve_id ex_pre [103] <> None /\
   find_def (snd (index_stmt [] 9 ex_foreach ex_pre)) [105] = None /\
+  find_defset (snd (index_stmt [] 9 ex_foreach ex_pre)) [105] = None /\
   s_refs (snd (index_stmt [] 9 ex_foreach ex_pre)) <> [] /\
   resolve_id (snd (index_stmt [] 9 ex_foreach ex_pre)) [103] <> None.
 Proof.
